@@ -26,6 +26,10 @@ const (
 	mBool
 	mTypedNil   // (*int)(nil): a non-nil interface value, so Has is true
 	mEmptySlice // []int{}: non-nil
+	mInt64      // int64(5): Value returns what was Set, type included
+	mUint8      // uint8(200)
+	mFloat32    // float32(0.1)
+	mBigUint    // a uint64 above MaxInt64
 )
 
 var c10TypedNil *int
@@ -54,6 +58,14 @@ func (v mval) String() string {
 		return "(*int)(nil)"
 	case mEmptySlice:
 		return "[]int{}"
+	case mInt64:
+		return "int64(5)"
+	case mUint8:
+		return "uint8(200)"
+	case mFloat32:
+		return "float32(0.1)"
+	case mBigUint:
+		return "uint64(1<<63+7)"
 	}
 	return "?"
 }
@@ -78,6 +90,14 @@ func (v mval) real() interface{} {
 		return c10TypedNil
 	case mEmptySlice:
 		return []int{}
+	case mInt64:
+		return int64(5)
+	case mUint8:
+		return uint8(200)
+	case mFloat32:
+		return float32(0.1)
+	case mBigUint:
+		return uint64(1<<63 + 7)
 	}
 	return nil
 }
@@ -103,6 +123,18 @@ func (v mval) matches(real interface{}) bool {
 	case mEmptySlice:
 		s, ok := real.([]int)
 		return ok && len(s) == 0 && s != nil
+	case mInt64:
+		x, ok := real.(int64)
+		return ok && x == 5
+	case mUint8:
+		x, ok := real.(uint8)
+		return ok && x == 200
+	case mFloat32:
+		x, ok := real.(float32)
+		return ok && x == float32(0.1)
+	case mBigUint:
+		x, ok := real.(uint64)
+		return ok && x == 1<<63+7
 	case mUserFn:
 		rv := reflect.ValueOf(real)
 		return rv.IsValid() && rv.Kind() == reflect.Func && rv.Pointer() == c10UserFnPtr
@@ -141,6 +173,7 @@ type mctx struct {
 	data      map[string]mval
 	wrapped   map[string]mval // root only: values of the wrapped context.Context
 	wrapCtx   *mctx           // root only: the wrapped context.Context is itself a plush context
+	typedKey  bool            // root only: the wrapped context.Context carries wrappedKey("b") = 99
 	ambiguous map[string]bool // helper names whose observation is not compared (see DESIGN §5.5)
 	real      *plush.Context
 }
@@ -235,8 +268,8 @@ func drawSwarm(t *rapid.T) {
 	nk := rapid.IntRange(1, len(c10Keys)).Draw(t, "nkeys")
 	perm := rapid.Permutation(append([]string{}, c10Keys...)).Draw(t, "keyperm")
 	runKeys = perm[:nk]
-	nv := rapid.IntRange(2, 12).Draw(t, "nvals")
-	vp := rapid.Permutation([]int{0, 1, 2, 3, 4, 5, 6, 7, 8, 9, 10, 11}).Draw(t, "valperm")
+	nv := rapid.IntRange(2, 16).Draw(t, "nvals")
+	vp := rapid.Permutation([]int{0, 1, 2, 3, 4, 5, 6, 7, 8, 9, 10, 11, 12, 13, 14, 15}).Draw(t, "valperm")
 	runVals = vp[:nv]
 }
 
@@ -258,6 +291,14 @@ func drawVal(t *rapid.T, label string) mval {
 		return mval{kind: mTypedNil}
 	case 11:
 		return mval{kind: mEmptySlice}
+	case 12:
+		return mval{kind: mInt64} // sized numbers: a context stores what it is given, type included
+	case 13:
+		return mval{kind: mUint8}
+	case 14:
+		return mval{kind: mFloat32}
+	case 15:
+		return mval{kind: mBigUint}
 	case 0:
 		return mval{kind: mNil}
 	case 1:
@@ -291,6 +332,17 @@ func drawData(t *rapid.T) (map[string]mval, map[string]interface{}) {
 
 type wrappedKey string
 
+// typedValue: does Value(wrappedKey("b")) answer on this context? Only through the embedded context.Context.
+func (c *mctx) typedValue() bool {
+	if c.parent != nil {
+		return false
+	}
+	if c.wrapCtx != nil {
+		return c.wrapCtx.typedValue()
+	}
+	return c.typedKey
+}
+
 // c10Run executes one history against plush and the model.
 func c10Run(t *rapid.T) {
 	defer func() {
@@ -318,6 +370,16 @@ func c10Run(t *rapid.T) {
 	var bulkObserved []string                    // keys written by the bulk-set op of this history
 	checkAll := func() {
 		for _, c := range live {
+			// a key of a named string type is NOT a scope name: the scopes are not consulted, only the embedded
+			// context.Context of the context asked (a nested scope has an empty one)
+			wantTyped := c.typedValue()
+			if got := c.real.Value(wrappedKey("b")); (got != nil) != wantTyped || (wantTyped && got != 99) {
+				violate(t, "C10", "typed-key-is-not-a-scope-name", "value:typed-key", fail("", "", fmt.Sprintf("ctx#%d.Value(wrappedKey(\"b\")) = %s, expected %s", c.id, describeReal(got), map[bool]string{true: "99 (from the wrapped context.Context)", false: "nil"}[wantTyped])))
+			}
+			if got := c.real.Value(wrappedKey("w")); got != nil {
+				violate(t, "C10", "typed-key-is-not-a-scope-name", "value:typed-key", fail("", "", fmt.Sprintf("ctx#%d.Value(wrappedKey(\"w\")) = %s, expected nil (no context.Context carries that key)", c.id, describeReal(got))))
+			}
+			count("c10_typed_key_observations", 2)
 			for _, k := range append(append([]string{}, c10Observed...), bulkObserved...) {
 				if c.ambiguous[k] {
 					count("c10_skipped_nil_helper", 1)
@@ -384,6 +446,7 @@ func c10Run(t *rapid.T) {
 			if c.parent == nil {
 				c.wrapped = map[string]mval{"w": wv}
 				c.wrapCtx = nil
+				c.typedKey = false
 			}
 			count("c10_embedded_context_assignments", 1)
 			checkAllMaybe()
@@ -477,6 +540,7 @@ func c10Run(t *rapid.T) {
 			// against an empty chain) and only then attaches the wrapped one.
 			c := newModel(nil, map[string]mval{}, nil)
 			c.wrapped = map[string]mval{"w": wv, "a": wa}
+			c.typedKey = true
 			c.real = plush.NewContextWithContext(base)
 			live = append(live, c)
 		case kind == 3 && len(live) < maxCtx:
